@@ -118,7 +118,7 @@ Definition CacheOk (a : agent T) : Prop :=
 (* every optimizer the agent steps runs with the agent's learning-rate attribute, in every param group *)
 Definition Coherent (a : agent T) : Prop :=
   forall o, In o (a_opts a) ->
-    exists v, getv (a_vals a) (o_lr_name o) = Some v /\ o_wlr o = v /\ Forall (fun g => g = v) (o_groups o).
+    exists v, getv (a_vals a) (o_lr_name o) = Some v /\ Forall (fun g => g = v) (o_groups o).
 
 Definition Inv (a : agent T) : Prop := Wf a /\ CacheOk a /\ Coherent a.
 
@@ -240,7 +240,7 @@ Proof.
     destruct (reinit_opt_names (setv (a_vals a) (hp_name h) nv) o) as [_ N].
     destruct (reinit_opt_lr _ _ _ G) as (L1 & L2 & _).
     exists nv. rewrite N. auto.
-  - apply Nat.eqb_neq in Hm. destruct (Co o Hin) as (w & G & L1 & L2).
+  - apply Nat.eqb_neq in Hm. destruct (Co o Hin) as (w & G & L2).
     exists w. rewrite getv_setv_other; [auto|congruence].
 Qed.
 
@@ -272,17 +272,41 @@ Proof.
     destruct (reinit_opt_lr _ _ _ G) as (L1 & L2 & _). exists v. rewrite N. auto.
 Qed.
 
-(* ... and under the invariant they change no learning rate at all *)
+(* ... and under the invariant they change no learning rate of any param group *)
 Lemma other_mutation_keeps_lrs (a : agent T) j o :
   Inv a -> nth_error (a_opts a) j = Some o ->
-  exists o', nth_error (a_opts (other_mutation a)) j = Some o' /\
-             o_wlr o' = o_wlr o /\ Forall (fun g => g = o_wlr o) (o_groups o') /\
+  exists o' v, nth_error (a_opts (other_mutation a)) j = Some o' /\
+             getv (a_vals a) (o_lr_name o) = Some v /\
+             Forall (fun g => g = v) (o_groups o) /\ Forall (fun g => g = v) (o_groups o') /\
              length (o_groups o') = length (o_groups o) /\ a_vals (other_mutation a) = a_vals a.
 Proof.
   intros (_ & _ & Co) Hj. unfold other_mutation. cbn [a_opts a_vals].
-  rewrite nth_error_map, Hj. cbn. eexists. split; [reflexivity|].
-  destruct (Co o (nth_error_In _ _ Hj)) as (v & G & L1 & L2).
-  destruct (reinit_opt_lr _ _ _ G) as (M1 & M2 & M3). rewrite L1. auto.
+  rewrite nth_error_map, Hj. cbn.
+  destruct (Co o (nth_error_In _ _ Hj)) as (v & G & L2).
+  destruct (reinit_opt_lr _ _ _ G) as (M1 & M2 & M3).
+  eexists. exists v. split; [reflexivity|]. auto.
+Qed.
+
+(* restoring a checkpoint (in place, or as a new member): the restored individual carries the SAVED
+   individual's attributes, cached values and optimizer groups, whatever the loader was before *)
+Lemma inv_loaded_into (src dst : agent T) : Inv src -> Inv (loaded_into src dst).
+Proof.
+  intros ((W1 & W2 & W3) & C & Co). unfold loaded_into. split; [|split].
+  - repeat split; cbn [a_vals a_hps a_opts]; auto.
+    + apply in_map_iff in H. destruct H as (o0 & <- & Hin). cbn. apply W3, Hin.
+    + apply in_map_iff in H. destruct H as (o0 & <- & Hin). cbn. apply W3, Hin.
+  - exact C.
+  - intros o' Hin. cbn [a_vals a_opts] in *. apply in_map_iff in Hin. destruct Hin as (o0 & <- & Hin).
+    cbn. apply Co, Hin.
+Qed.
+
+Lemma loaded_into_state (src dst : agent T) :
+  a_vals (loaded_into src dst) = a_vals src /\ a_hps (loaded_into src dst) = a_hps src /\
+  a_mut (loaded_into src dst) = a_mut src /\
+  map (@o_groups T) (a_opts (loaded_into src dst)) = map (@o_groups T) (a_opts src) /\
+  map (@o_lr_name T) (a_opts (loaded_into src dst)) = map (@o_lr_name T) (a_opts src).
+Proof.
+  unfold loaded_into. cbn. repeat split; rewrite map_map; reflexivity.
 Qed.
 
 (* ---------------- what one mutation does (the property, agent level) ---------------- *)
@@ -388,13 +412,20 @@ Qed.
 
 Lemma pop_step_inv (pop : list (agent T)) o : Forall Inv pop -> Forall Inv (pop_step O pop o).
 Proof.
-  intros H. destruct o as [draws|i k u|s d|i0|i]; cbn.
+  intros H. destruct o as [draws|i k u|s d|s d|s d|i0|i]; cbn.
   - apply mutation_round_inv; exact H.
   - destruct (nth_error pop i) as [a|] eqn:E; [|exact H].
     apply upd_nth_Forall; [exact H|]. apply inv_rl_hp_mutation.
     rewrite Forall_forall in H. apply H. eapply nth_error_In; eauto.
   - destruct (nth_error pop s) as [a|] eqn:E; [|exact H].
     apply upd_nth_Forall; [exact H|]. rewrite Forall_forall in H. apply H. eapply nth_error_In; eauto.
+  - destruct (nth_error pop s) as [a|] eqn:E; [|exact H].
+    destruct (nth_error pop d) as [b|] eqn:E2; [|exact H].
+    apply upd_nth_Forall; [exact H|]. apply inv_loaded_into.
+    rewrite Forall_forall in H. apply H. eapply nth_error_In; eauto.
+  - destruct (nth_error pop s) as [a|] eqn:E; [|exact H].
+    apply upd_nth_Forall; [exact H|]. apply inv_loaded_into.
+    rewrite Forall_forall in H. apply H. eapply nth_error_In; eauto.
   - exact H.
   - destruct (nth_error pop i) as [a|] eqn:E; [|exact H].
     apply upd_nth_Forall; [exact H|]. apply inv_other_mutation.
@@ -408,9 +439,11 @@ Qed.
 
 Lemma pop_step_length (pop : list (agent T)) o : length (pop_step O pop o) = length pop.
 Proof.
-  destruct o as [draws|i k u|s d|i0|i]; cbn.
+  destruct o as [draws|i k u|s d|s d|s d|i0|i]; cbn.
   - apply mutation_round_length.
   - destruct (nth_error pop i); auto using upd_nth_length.
+  - destruct (nth_error pop s); auto using upd_nth_length.
+  - destruct (nth_error pop s); [destruct (nth_error pop d)|]; auto using upd_nth_length.
   - destruct (nth_error pop s); auto using upd_nth_length.
   - reflexivity.
   - destruct (nth_error pop i); auto using upd_nth_length.
@@ -598,13 +631,22 @@ Qed.
 
 Lemma rinv_pop_step (pop : list (agent Q)) o : Forall RInv pop -> Forall RInv (pop_step QOps pop o).
 Proof.
-  intros H. destruct o as [draws|i k u|s d|i0|i]; cbn.
+  intros H. destruct o as [draws|i k u|s d|s d|s d|i0|i]; cbn.
   - apply rinv_round; exact H.
   - destruct (nth_error pop i) as [a|] eqn:E; [|exact H].
     apply upd_nth_Forall; [exact H|]. apply rinv_rl_hp_mutation.
     rewrite Forall_forall in H. apply H. eapply nth_error_In; eauto.
   - destruct (nth_error pop s) as [a|] eqn:E; [|exact H].
     apply upd_nth_Forall; [exact H|]. rewrite Forall_forall in H. apply H. eapply nth_error_In; eauto.
+  - destruct (nth_error pop s) as [a|] eqn:E; [|exact H].
+    destruct (nth_error pop d) as [b|] eqn:E2; [|exact H].
+    apply upd_nth_Forall; [exact H|].
+    rewrite Forall_forall in H. destruct (H a (nth_error_In _ _ E)) as (I & R & G).
+    split; [apply inv_loaded_into, I|split; [exact R|exact G]].
+  - destruct (nth_error pop s) as [a|] eqn:E; [|exact H].
+    apply upd_nth_Forall; [exact H|].
+    rewrite Forall_forall in H. destruct (H a (nth_error_In _ _ E)) as (I & R & G).
+    split; [apply inv_loaded_into, I|split; [exact R|exact G]].
   - exact H.
   - destruct (nth_error pop i) as [a|] eqn:E; [|exact H].
     apply upd_nth_Forall; [exact H|].
